@@ -47,6 +47,14 @@ def work(args):
         u, v, cls = dir_pair(G, (idx * 3 + i) // 5)
         A = ('V', u) if ka == 'V' else (ka, G.pt(), u)
         B = ('V', v) if kb == 'V' else (kb, G.pt(), v)
+        if G.R.random() < 0.2:
+            # decoy: lines built ON the library's constant vectors and then moved in place by one of the directions under test -- were
+            # a constant a shared instance, it would now BE that direction and the zero / unit shortcuts of parallel() would fire
+            for fac in (impl.Vector.zero, impl.Vector.x_unit_vector, impl.Vector.y_unit_vector, impl.Vector.z_unit_vector):
+                try:
+                    impl.Line(fac(), impl.Vc(u)).move(impl.Vc(v if G.R.random() < 0.5 else u))
+                except Exception:
+                    pass
         a, b = interlib.build_pair(impl, A, B)      # primed in-place move / shared-Point decoys for a third of the cases
         obs = {}
         for name, f in (('angle', impl.angle), ('parallel', impl.parallel), ('orthogonal', impl.orthogonal)):
